@@ -28,9 +28,17 @@ Definition days_from_civil (y m d : Z) : Z :=
   let yoe := y' - era * 400 in
   era * 146097 + doe_of yoe m d - 719468.
 
+(* day of the era -> (year of the era, month, day): the century of the era (the last one a day longer),
+   the four-year cycle of the century, the year of the cycle (the last one a day longer), the day of that
+   March-based year; then the month from the day of the year *)
 Definition civil_doe (doe : Z) : Z * Z * Z :=
-  let yoe := (doe - doe / 1460 + doe / 36524 - doe / 146096) / 365 in
-  let doy := doe - (365 * yoe + yoe / 4 - yoe / 100) in
+  let c := Z.min (doe / 36524) 3 in
+  let docent := doe - c * 36524 in
+  let q := docent / 1461 in
+  let doq := docent - q * 1461 in
+  let yq := Z.min (doq / 365) 3 in
+  let doy := doq - yq * 365 in
+  let yoe := 100 * c + 4 * q + yq in
   let mp := (5 * doy + 2) / 153 in
   let d := doy - (153 * mp + 2) / 5 + 1 in
   let m := if mp <? 10 then mp + 3 else mp - 9 in
